@@ -2,7 +2,9 @@
    Statements only.  [run_hist V0 h] (Abs/CfgExec.v) replays a history observed on real nodes
    against Abs/CfgRaft.v: each item is the list of abstract actions an observed event amounts to
    (checked with the boolean guards of Abs/CfgRun.v) and what some nodes look like afterwards
-   (same term, same log, observed commit index not ahead, observed Leader/Candidate role matched).
+   (same term, same log, observed commit index not ahead, observed Leader/Candidate role matched,
+   same durable prefix after the abstract nodes caught up by implicit flushes: a real node may
+   have flushed more than the abstract one has to, never less -- code 5).
    An accepted history ends in a reachable abstract state, so the safety theorems of
    Props/C08_abs.v hold of the observations.  Proofs: Abs/CfgExec.v, Abs/CfgExecThms.v,
    Abs/CfgExecSample.v. *)
@@ -32,7 +34,8 @@ Theorem cfg_obs_ok_meaning : forall s n o, obs_okb s (n, o) = 0%nat ->
   cur (st s n) = o_cur o /\ log (st s n) = o_log o /\
   (o_commit o <= commit (st s n))%nat /\
   (o_role o = Leader -> role (st s n) = Leader) /\
-  (o_role o = Candidate -> role (st s n) = Candidate).
+  (o_role o = Candidate -> role (st s n) = Candidate) /\
+  flushed (st s n) = o_flushed o.
 Proof. exact obs_okb_ok. Qed.
 Print Assumptions cfg_obs_ok_meaning.
 
@@ -60,6 +63,16 @@ Theorem cfg_observed_log_matching : forall V0, NoDup V0 -> forall h acts os s,
 Proof. exact observed_cfg_log_matching. Qed.
 Print Assumptions cfg_observed_log_matching.
 
+(* what a node reports as committed is within what it reports as durable *)
+Theorem cfg_observed_commit_durable : forall V0, NoDup V0 -> forall h acts os s,
+  run_hist V0 (h ++ [(acts, os)]) = HOk s -> forall n o,
+  In (n, o) os -> (o_commit o <= o_flushed o)%nat.
+Proof.
+  intros V0 HV h acts os s Hr n o Hin.
+  exact (proj1 (observed_cfg_commit_durable V0 HV h acts os s Hr n o Hin)).
+Qed.
+Print Assumptions cfg_observed_commit_durable.
+
 Example cfg_sample_history_accepted :
   exists s, run_hist [1; 2; 3] sample_cfg_history = HOk s.
 Proof. exact sample_cfg_history_accepted. Qed.
@@ -82,3 +95,22 @@ Example cfg_sample_second_winner_rejected :
   run_hist [1; 2; 3] sample_cfg_second_winner = HFail 4 1000.
 Proof. exact sample_cfg_second_winner_rejected. Qed.
 Print Assumptions cfg_sample_second_winner_rejected.
+
+(* a follower that acknowledged without flushing: item 6, code 5 (durable prefix) *)
+Example cfg_sample_not_flushed_rejected :
+  run_hist [1; 2; 3] sample_cfg_not_flushed = HFail 6 5.
+Proof. exact sample_cfg_not_flushed_rejected. Qed.
+Print Assumptions cfg_sample_not_flushed_rejected.
+
+(* a crashed node that still has its unflushed entry: item 11, code 2 (log) *)
+Example cfg_sample_crash_keeps_rejected :
+  run_hist [1; 2; 3] sample_cfg_crash_keeps = HFail 11 2.
+Proof. exact sample_cfg_crash_keeps_rejected. Qed.
+Print Assumptions cfg_sample_crash_keeps_rejected.
+
+(* a deposed leader with an unflushed entry receives a heartbeat that changes nothing:
+   it flushes nothing, and the history is accepted *)
+Example cfg_sample_heartbeat_no_flush_accepted :
+  explain_all [1; 2; 3] sample_cfg_heartbeat_no_flush = [].
+Proof. exact sample_cfg_heartbeat_no_flush_accepted. Qed.
+Print Assumptions cfg_sample_heartbeat_no_flush_accepted.
